@@ -9,6 +9,7 @@ import (
 	"sort"
 	"strings"
 
+	"verif/internal/ceval"
 	"verif/internal/report"
 )
 
@@ -573,6 +574,11 @@ func (a *Analysis) PredSpec() *report.RuleResult {
 	res := report.NewResult("pred-spec")
 	m := a.M
 	info := m.info()
+	var lexObj types.Object
+	if m.Lex != nil && m.Lex.Recv != nil && len(m.Lex.Recv.List) == 1 && len(m.Lex.Recv.List[0].Names) == 1 {
+		lexObj = info.Defs[m.Lex.Recv.List[0].Names[0]]
+	}
+	var cev *ceval.Interp
 	for _, mn := range machineNames(a) {
 		spec, ok := condSpecs[mn]
 		if !ok {
@@ -673,6 +679,46 @@ func (a *Analysis) PredSpec() *report.RuleResult {
 							}
 							pi := &pinterp{m: m, sc: sc}
 							v, st := pi.expr(cond, &pframe{vars: map[types.Object]pv{}, recv: "lex"})
+							if st == pUnknown && lexObj != nil {
+								// the window interpreter knows one spelling of the predicates (the receiver's fields read in
+								// place); anything else - local aliases of the input, switches, helper results - is evaluated by
+								// the general evaluator on the same scenario written out as an input
+								data := make([]byte, int(sc.cursor)+L)
+								for i := range data {
+									data[i] = 'x'
+								}
+								for k := 0; k < 8; k++ {
+									if sc.win[k] >= 0 && int(sc.cursor)+k-4 < len(data) {
+										data[int(sc.cursor)+k-4] = byte(sc.win[k])
+									}
+								}
+								if cev == nil {
+									cev = ceval.New(m.Pkg)
+								}
+								minOff, maxOff := int64(0), int64(0)
+								cev.Reads = func(base string, index int) {
+									off := int64(index) - sc.cursor
+									if off < minOff {
+										minOff = off
+									}
+									if off > maxOff {
+										maxOff = off
+									}
+								}
+								lex := &ceval.Struct{Type: "Lexer", Fields: map[string]interface{}{"data": ceval.Bytes{B: data}, "p": sc.cursor, "pe": int64(len(data))}}
+								r, cst, why := cev.Eval(cond, info, map[types.Object]interface{}{lexObj: lex})
+								switch cst {
+								case ceval.OK:
+									if b, ok := r.(bool); ok {
+										v, st = pv{kind: 1, b: b}, pOK
+										pi.minOff, pi.maxOff = minOff, maxOff
+									}
+								case ceval.Panic:
+									st = pPanic
+								default:
+									pi.why = why
+								}
+							}
 							nScen++
 							want := spec.fn(L, bm2, bm1, b0, b1)
 							desc := func() string {
